@@ -1,6 +1,6 @@
 """C14 -- engine resources reflect exactly the writes applied, whatever the route taken.
 (Also hosts the JSON -> Gallina generator shared with C15: both properties use the model Engine.v.)"""
-import json, os, concurrent.futures
+import json, os, re, concurrent.futures
 import coqgen as g
 
 SHARD_BYTES = 700_000   # of generated .v text per shard
@@ -168,10 +168,40 @@ def obody(b):
     return "(OOther %s)" % s(b.get("what", "")[:60])
 
 
+class Interner:
+    """Projected responses repeat a lot within a sequence (after every request every readable resource is fetched again,
+    and most of them did not change; with 128 actions one such answer is several KiB of Gallina).  A response term of
+    INTERN_MIN characters or more is emitted once per shard as [Definition o<i> : oresp := ...] and referred to by name."""
+    def __init__(self):
+        self.ids, self.texts, self.used = {}, [], set()
+
+    def ref(self, t):
+        i = self.ids.get(t)
+        if i is None:
+            i = self.ids[t] = len(self.texts)
+            self.texts.append(t)
+        self.used.add(i)
+        return "o%d" % i
+
+    def take_used(self):
+        u, self.used = self.used, set()
+        return u
+
+    def defs(self, ids):
+        return "".join("Definition o%d : oresp := %s.\n" % (i, self.texts[i]) for i in sorted(ids))
+
+
+INTERN = None        # set by generate() for the duration of one generation
+INTERN_MIN = 100
+
+
 def oresp(r):
     if r["k"] == "panic":
         return "OPanic"
-    return "(OResp %d %s %s)" % (r["status"], CT[r["ct"]], obody(r["b"]))
+    t = "(OResp %d %s %s)" % (r["status"], CT[r["ct"]], obody(r["b"]))
+    if INTERN is not None and len(t) >= INTERN_MIN:
+        return INTERN.ref(t)
+    return t
 
 
 def obs(o):
@@ -226,33 +256,60 @@ Definition mkcase := Build_case.
 
 def generate(pid, ctx, lines):
     """Shards the cases of one harness run into gen/cases_<pid>_<i>.v, compiles them (2 at a time), records obligations."""
+    global INTERN
+    INTERN = it = Interner()
+    try:
+        return _generate(pid, ctx, lines, it)
+    finally:
+        INTERN = None
+
+
+def _generate(pid, ctx, lines, it):
     cases = [l for l in lines if l.get("kind") == "case"]
     descs = sorted([l for l in lines if l.get("kind") == "desc"], key=lambda d: d["id"])
     convs = [l for l in lines if l.get("kind") == "conv"]
     head = PRELUDE + "".join(desc(d) for d in descs)
+
+    def case_text(c):
+        """(case, Gallina term, ids of the interned responses it refers to)"""
+        it.take_used()
+        t = case(c)
+        return (c, t, it.take_used())
     # the sequences with large bodies are the expensive ones to evaluate (tables of thousands of rows): they are dealt
     # round-robin onto the shards made of the ordinary sequences, lightest shard first
     heavy = [c for c in cases if c.get("tag") == "large-body"]
-    shards, cur, size = [], [], 0
+    shards, cur, size, have = [], [], 0, set()
     for c in cases:
         if c.get("tag") == "large-body":
             continue
-        t = case(c)
-        if cur and size + len(t) > SHARD_BYTES:
+        item = case_text(c)
+        cost = len(item[1]) + sum(len(it.texts[i]) + 30 for i in item[2] - have)
+        if cur and size + cost > SHARD_BYTES:
             shards.append(cur)
-            cur, size = [], 0
-        cur.append((c, t))
-        size += len(t)
+            cur, size, have = [], 0, set()
+            cost = len(item[1]) + sum(len(it.texts[i]) + 30 for i in item[2])
+        cur.append(item)
+        size += cost
+        have |= item[2]
     if cur:
         shards.append(cur)
     if heavy and not shards:
         shards.append([])
-    order = sorted(range(len(shards)), key=lambda i: sum(len(t) for _, t in shards[i]))
+    order = sorted(range(len(shards)), key=lambda i: sum(len(x[1]) for x in shards[i]))
     for k, c in enumerate(heavy):
-        shards[order[k % len(order)]].append((c, case(c)))
+        shards[order[k % len(order)]].append(case_text(c))
+    gen_dir = os.path.join(os.path.dirname(os.path.dirname(os.path.dirname(os.path.abspath(__file__)))), "coq", "gen")
+    for f in os.listdir(gen_dir):   # shards left by an earlier, larger run of this property
+        m = re.match(r"\.?cases_%s_(\d+)\.(v|vo|vok|vos|glob|aux)$" % pid, f)
+        if m and int(m.group(1)) >= len(shards):
+            try:
+                os.remove(os.path.join(gen_dir, f))
+            except OSError:
+                pass
     jobs = []
     for si, shard in enumerate(shards):
-        body = head + "Definition cases : list case := [\n  " + ";\n  ".join(t for _, t in shard) + "\n].\n"
+        used = set().union(*[x[2] for x in shard]) if shard else set()
+        body = head + it.defs(used) + "Definition cases : list case := [\n  " + ";\n  ".join(x[1] for x in shard) + "\n].\n"
         # one evaluation of the cases: D = (case index, first bad step) of every mismatching case, M = its case indices
         # (EngineCorr: mismatches cs = map fst (diag cs), both are [first_bad c <> None])
         body += "Definition D := Eval vm_compute in diag cases.\nPrint D.\n"
@@ -260,7 +317,9 @@ def generate(pid, ctx, lines):
         jobs.append(("cases_%s_%d" % (pid, si), body, shard))
     scases = [l for l in lines if l.get("kind") == "scase"]
     if scases:
-        sbody = head + "Definition scases : list scase := [\n  " + ";\n  ".join(scase(c) for c in scases) + "\n].\n"
+        it.take_used()
+        stexts = [scase(c) for c in scases]
+        sbody = head + it.defs(it.take_used()) + "Definition scases : list scase := [\n  " + ";\n  ".join(stexts) + "\n].\n"
         sbody += "Definition M := Eval vm_compute in smismatches scases.\nPrint M.\n"
         jobs.append(("cases_%s_server" % pid, sbody, None))
     conv_items = ["(%s, %s)" % (fval(c["f"]), z(c["id"])) for c in convs]
@@ -275,7 +334,6 @@ def generate(pid, ctx, lines):
 
     with concurrent.futures.ThreadPoolExecutor(max_workers=8) as ex:
         results = list(ex.map(compile_one, jobs))
-    import re
     bad_cases = []
     for (name, body, shard), p in zip(jobs, results):
         label = "correspondence:" + name
@@ -314,12 +372,30 @@ def generate(pid, ctx, lines):
 
 
 ORACLE_KINDS_C14 = ("error-status-but-resource-changed", "error-status-but-hidden-state-changed", "text-not-verbatim",
-                    "routes-disagree", "served-valuation-differs-from-fresh-instance")
+                    "routes-disagree", "served-valuation-differs-from-fresh-instance", "route-did-not-reach-its-action-set",
+                    "served-encoding-is-not-the-encoding-of-the-set-written", "served-encoding-not-canonical",
+                    "undecodable-encoding-accepted", "patched-encoding-is-not-the-set-served")
 
 
 def common(pid, ctx, sub, alongside=None):
     ctx.build_harness()
-    lines = ctx.run_harness(sub, [ctx.tier], timeout=3000)
+    # the property file is re-checked while the harness runs (two independent child processes)
+    import threading
+    thm_failure = []
+
+    def theorems():
+        try:
+            ctx.check_theorems("Properties/%s.v" % pid)
+        except Exception as e:   # re-raised in the main thread below
+            thm_failure.append(e)
+    thm = threading.Thread(target=theorems)
+    thm.start()
+    try:
+        lines = ctx.run_harness(sub, [ctx.tier], timeout=3000)
+    finally:
+        thm.join()
+    if thm_failure:
+        raise thm_failure[0]
     for l in lines:
         if l.get("kind") == "oracle":
             ctx.failing_inputs.append(l)
@@ -327,7 +403,6 @@ def common(pid, ctx, sub, alongside=None):
             ctx.stats = l["stats"]
         if l.get("kind") == "note":
             ctx.notes.append(l)
-    ctx.check_theorems("Properties/%s.v" % pid)
     ctx.engine_lines = lines
     side = None
     if alongside is not None:   # further correspondence files compiled while the case shards are
@@ -407,11 +482,28 @@ def run(ctx):
         "count x unit + pad + suffix so that the body is valid as a whole and its meaning is decided by the suffix (variants: filler "
         "rows/entries/comment lines, blank-line or white-space gap after a prefix that parses by itself, one long line, trailing "
         "filler, malformed tail that must be refused, one long attribute value), delivered in varying chunk sizes (a third of the "
-        "ordinary walks too).  Posted texts are interned tokens (same token <=> same bytes: byte equality of what GET returns is "
+        "ordinary walks too), and THE SAME STREAMS ON GENERATED CATCHMENTS whose number of management actions sits on and around the "
+        "64-bit word boundaries of the action encoding (quick: 1 or 2, 63, 64, 65, 128; thorough: 1, 2, 3, 63, 64, 65, 127, 128, 129, 191, "
+        "192, 193, 256; catchSizedDataset through the real loader, scenario TOML naming the data set relative to the working directory): "
+        "route triples from a state that differs from the target at the word-boundary actions, one per boundary set (all, none, only the "
+        "last action, only action 62 / 63 / 64 / 127 / 128, 62..64, all but the last word, only the last word, all but the last action, "
+        "only the first, random) plus a full per-subcatchment sweep, compared on EVERY readable resource; failed writes around a state "
+        "whose last word is in use (a word too few / too many, 17-digit word, good then bad encoding, bad table cell, unsupported type, "
+        "wrong content type, unknown unit, summary with a mis-sized Actions cell); random walks and a replaced-summary history with the "
+        "generators biased to the boundary sets; the scenario with and without an implementation-cost limit.  Posted texts are interned tokens (same token <=> same bytes: byte equality of what GET returns is "
         "decided on tokens, and by the Go-side oracle text-not-verbatim), filler rows/entries are run-length encoded in the views "
         "(EngineCorr.rle), attribute values over 2 KiB are (length, sha256).  After EVERY request the six read-only resources "
         "and the per-subcatchment resource of every planning unit are fetched and compared with the model's.  evaluations = "
         "requests compared; distinct_nontrivial = distinct abstract requests (method, route, content type, parse-level body view)")
+    st = ctx.stats or {}
+    ctx.coverage["generated_catchments"] = {
+        "action_counts": sorted(int(k.split(":")[-1]) for k in st if k.startswith("sized:actions:")),
+        "route_triples": st.get("sized:route_triples", 0), "walks": st.get("sized:walks", 0),
+        "failed_writes": st.get("sized:failed_writes", 0), "summary_histories": st.get("sized:summary_histories", 0),
+        "rule": "route triples = (size, boundary set) pairs, three engines each; every request goes through the same model comparison as the "
+                "shipped scenario's; Go oracles: route-did-not-reach-its-action-set, served-encoding-is-not-the-encoding-of-the-set-written, "
+                "routes-disagree (any readable resource), served-encoding-not-canonical, undecodable-encoding-accepted, "
+                "patched-encoding-is-not-the-set-served (own encoder / decoder, no code of pkg/archive)"}
     ctx.assumptions = [
         "the catchment valuation is a function of the action set (C01, another slice): the served decision variables are "
         "compared with a fresh model instance put into the served action set, not recomputed in Coq",
